@@ -4,7 +4,8 @@ C11 — executable model of `Dune::lru<Key,Tp>` (dune/common/lru.hh), core Lean 
 `_data` (a `std::list<pair<Key,Tp>>`) is a list of nodes `(id, key, value)`; the node id stands for the list
 iterator, which stays valid while the node lives.  `_index` (a `std::map<Key, list::iterator>`) is an
 association list `key ↦ id` with `std::map` semantics: `insert` does not overwrite, `erase(key)` removes the key.
-After fixes/C11_lru_insert_existing.patch (`insert` of a present key overwrites the data and splices to front).
+After fixes/C11_lru_insert_existing.patch (`insert` of a present key overwrites the data and splices to front),
+fixes/C11_lru_copy.patch (copying rebuilds the index) and fixes/C11_lru_const_find.patch (compile fix only).
 -/
 namespace DV.C11.LRU
 
@@ -135,5 +136,60 @@ def specStep (l : List (κ × ν)) : Op κ ν → List (κ × ν)
   | .clear => []
 
 def specRun (l : List (κ × ν)) (ops : List (Op κ ν)) : List (κ × ν) := ops.foldl specStep l
+
+/-! ### copying, and histories over two caches
+
+`lru(const lru&)` (fixes/C11_lru_copy.patch): `_data(other._data)` — the copy owns new list nodes, which the model
+names by the same ids (identities are per list) — then `rebuildIndex()`.  Value semantics make the independence of
+copy and original true of the model by construction; the harness decides it for the real class. -/
+
+/-- `_index.clear(); for (it = _data.begin(); it != _data.end(); ++it) _index.insert(make_pair(it->first, it));` -/
+def rebuildIndex (d : List (Nat × κ × ν)) : List (κ × Nat) :=
+  d.foldl (fun ix nd => idxInsert ix nd.2.1 nd.1) []
+
+def copy (s : State κ ν) : State κ ν := { data := s.data, index := rebuildIndex s.data, fresh := s.fresh }
+
+/-- the unrepaired implicit copy kept the source's index: it names nodes of the *source* list (documentation only) -/
+def copyOld (s : State κ ν) : State κ ν := s
+
+/-- `operator=(other)`; `none` stands for `&other == this` -/
+def assign (s : State κ ν) (other : Option (State κ ν)) : State κ ν :=
+  match other with
+  | none => s                  -- if (this != &other) { … }
+  | some o => copy o           -- `_data = other._data; rebuildIndex();`
+
+inductive Side where
+  | a | b
+deriving Repr, DecidableEq
+
+structure World (κ ν : Type) where
+  a : State κ ν
+  b : State κ ν
+
+inductive Op2 (κ ν : Type) where
+  | on (t : Side) (o : Op κ ν)
+  | copyFrom (t : Side)        -- `t = other` (or `t` constructed anew as a copy of the other cache)
+  | selfAssign (t : Side)
+deriving Repr
+
+def step2 (w : World κ ν) : Op2 κ ν → World κ ν
+  | .on .a o => { w with a := step w.a o }
+  | .on .b o => { w with b := step w.b o }
+  | .copyFrom .a => { w with a := assign w.a (some w.b) }
+  | .copyFrom .b => { w with b := assign w.b (some w.a) }
+  | .selfAssign .a => { w with a := assign w.a none }
+  | .selfAssign .b => { w with b := assign w.b none }
+
+def run2 (w : World κ ν) (ops : List (Op2 κ ν)) : World κ ν := ops.foldl step2 w
+
+def specStep2 (w : List (κ × ν) × List (κ × ν)) : Op2 κ ν → List (κ × ν) × List (κ × ν)
+  | .on .a o => (specStep w.1 o, w.2)
+  | .on .b o => (w.1, specStep w.2 o)
+  | .copyFrom .a => (w.2, w.2)
+  | .copyFrom .b => (w.1, w.1)
+  | .selfAssign _ => w
+
+def specRun2 (w : List (κ × ν) × List (κ × ν)) (ops : List (Op2 κ ν)) : List (κ × ν) × List (κ × ν) :=
+  ops.foldl specStep2 w
 
 end DV.C11.LRU
